@@ -12,7 +12,6 @@ import (
 	"path"
 	"runtime"
 	"strings"
-	"sync/atomic"
 	"time"
 
 	"github.com/q191201771/lal/pkg/base"
@@ -51,8 +50,6 @@ type endSnap struct {
 	hookStp int
 	hlsOps  int
 }
-
-var fakeNow int64 = 1_700_000_000
 
 func newSys(o sw.SysOpts) *sys {
 	return &sys{Sys: sw.NewSys(o, nil), cw: map[int]int{}, cage: map[int]int{}}
@@ -102,7 +99,7 @@ func (s *sys) Apply(ev string) error {
 		s.X.PubAlive = false
 		s.X.PumpAll()
 	case "PubArrive":
-		atomic.AddInt64(&fakeNow, 1) // record file names carry the second of the arrival
+		s.X.W.Advance(time.Second) // record file names carry the second of the arrival
 		err = s.Sys.Apply(ev)
 	case "T":
 		err = s.Sys.Apply(ev)
@@ -491,9 +488,8 @@ func main() {
 	lalenv.Quiet()
 	world.SyncQueues()
 	base.LogicCheckSessionAliveIntervalSec = 1
-	logic.VerifNowFn = func() time.Time { return time.Unix(atomic.LoadInt64(&fakeNow), 0) }
 	r.Rule("states = distinct canonical fingerprints reached by event sequences over {P(vsh|key|inter|ash|aac), J(rtmp|ts), L, PubLeave, Kick, PubArrive, T, Dispose} per output configuration; after every event the finalise-once / completeness / clean-start / liveness monitors run. distinct_nontrivial = states")
-	r.Assume("pkg/logic's clock is a fake one (vgen rewrites time.Now) advanced one second per publisher arrival so that record file names differ; base.LogicCheckSessionAliveIntervalSec = 1",
+	r.Assume("pkg/logic's clock is the world's (vgen rewrites time.Now): one second per tick and one second per publisher arrival, so record file names of successive publishers differ; base.LogicCheckSessionAliveIntervalSec = 1",
 		"HLS on the instrumented in-memory file system; FLV/TS records on a scratch directory",
 		"the delayed HLS directory cleanup task (real-time timer) does not fire within an execution; relay push finalisation is C17's subject",
 		"publisher = RTMP; RTSP / customize / GB28181 inputs share Group.delIn")
